@@ -297,7 +297,7 @@ prop('C13',
             needs_min={'tuples': 10000}),
       Stage('dec', ['harness/wav.c'], WAV, preset='asan', nproc=16,
             args={'quick': ['--extra', 'dec'], 'thorough': ['--extra', 'dec']},
-            needs_min={'decode_first_accepted': 50000}),
+            needs_min={'decode_first_accepted': 50000, 'headers_with_blank_or_odd_byte_rate': 1000, 'headers_with_blank_or_odd_block_align': 1000}),
       Stage('rt-clang-O2', ['harness/wav.c'], WAV, preset='asan-O2', cc='clang', nproc=16, tiers=('thorough',),
             args={'thorough': ['--extra', 'rt', '--cases', '2000000']})],
      assumptions=['sizes fit in 32 bits: block alignment <= 65535, data size + header <= 2^32-1, byte rate <= 2^32-1 '
@@ -595,7 +595,7 @@ prop('C05',
      'event log / schedule / placement.',
      [Stage('seq', ['harness/rb.c'], RING, preset='asan', nproc=16,
             args={'quick': ['--extra', 'seq'], 'thorough': ['--extra', 'seq']},
-            needs_min={'histories_nontrivial': 10000}),
+            needs_min={'histories_nontrivial': 10000, 'rings_initialised_over_a_used_descriptor': 1000}),
       Stage('isr', ['harness/rb.c'] + SHIM, RING, preset='shim', nproc=4, cflags=['-DRB_SHIM'],
             args={'quick': ['--extra', 'isr'], 'thorough': ['--extra', 'isr']},
             needs_min={'single_isr_placements': 3000}),
@@ -675,7 +675,7 @@ import ptgen
 def pt_stage(name, preset, cc, nfiles, per, tiers=('quick', 'thorough')):
     return Stage(name, ['harness/pt_driver.c'], [], preset=preset, cc=cc, nproc=8, tiers=tiers,
                  pregen=ptgen.pregen(nfiles, per), needs_min={'programs_run': nfiles * per * 9 // 10, 'invocations': 1000,
-                            'programs_with_unbraced_spawn_as_loop_or_if_body': nfiles * per // 40},
+                            'programs_with_unbraced_spawn_as_loop_or_if_body': nfiles * per // 40, 'long_children_run': 159},
                  timeout={'quick': 600, 'thorough': 3600})
 
 
@@ -688,7 +688,9 @@ prop('C08',
      'every invocation compared; loop and if bodies that are a single PT_ macro are written without braces two times '
      'in three, conditions are unparenthesised expressions with truth values other than 1. Non-trivial = program with a '
      'blocking point inside a loop inside a conditional, a spawn inside a loop, a failing child or an unbraced macro '
-     'body; programs are distinct by construction (id), counted.',
+     'body; programs are distinct by construction (id), counted. A fixed family adds children that block N times '
+     '(N = 0..300000 at and around powers of two, 1000, 10000, 65536, 100000; yielding, waiting, alternating) under '
+     'PT_CALL (one invocation must run them to completion) and under PT_SPAWN (every block relayed unchanged).',
      [pt_stage('gcc-O1', 'asan', 'gcc', 8, 100),
       pt_stage('clang-O1', 'asan', 'clang', 4, 100),
       pt_stage('gcc-O2-more', 'asan-O2', 'gcc', 16, 400, tiers=('thorough',)),
